@@ -18,11 +18,13 @@ Rnd(s, i) ==
 Pick(s, i, n) == Rnd(s, i) % n                     \* 0..n-1
 PickSeq(s, i, q) == q[1 + Pick(s, i, Len(q))]
 
+Cyc(q, i) == q[1 + (i % Len(q))]       \* enumerated option values are cycled through (n + seed), so that every tier uses each
 OpNames == <<"update_ibi_pot", "dist_boltzmann_invert", "table_linearop", "table_linearop_x", "table_combine",
              "table_combine_sum", "merge_tables", "add_POT", "table_scale", "table_integrate",
              "resample_derivative", "integrate_derivative", "potential_shift", "table_smooth",
              "table_extrapolate", "potential_extrapolate", "table_get_value", "table_change_flag",
-             "table_dummy", "table_average", "dist_adjust", "table_switch_border", "resample_same", "average_linearop">>
+             "table_dummy", "table_average", "dist_adjust", "table_switch_border", "resample_same", "average_linearop",
+             "table_combine_die", "resample_spline">>
 OpIdx(op) == CHOOSE i \in 1..Len(OpNames) : OpNames[i] = op
 
 \* ---- generators ------------------------------------------------------------------------------
@@ -46,7 +48,7 @@ Coef(sd, i) == PickSeq(sd, i, <<<<-1, 1>>, <<2, 1>>, <<1, 2>>, <<0, 1>>, <<-3, 4
 RECURSIVE GapG(_, _)
 GapG(sd, n) == IF n = 1 THEN <<0>> ELSE LET p == GapG(sd, n - 1) IN Append(p, p[n - 1] + 1 + Pick(sd, 1200 + n, 3))
 GOf(sd, n) == IF Pick(sd, 11, 2) = 0 THEN UniformG(n) ELSE GapG(sd, n)
-UniformOnly == {"table_switch_border", "table_dummy", "resample_same"}
+UniformOnly == {"table_switch_border", "table_dummy", "resample_same", "resample_spline"}
 \* input-file variants that must not matter (CsgFunctions.pm readin_table: "the last column is the flag"):
 \*   e4  : the input tables carry an error column, x y yerr flag (as written by table_average.sh / csg_fmatch), and the
 \*         tool is run WITHOUT --with-errors: same result as for the 3-column table with the same x, y, flag
@@ -57,6 +59,18 @@ FourColOps == {"update_ibi_pot", "dist_boltzmann_invert", "table_linearop", "tab
                "potential_shift", "table_smooth", "table_extrapolate", "potential_extrapolate", "table_get_value",
                "table_average", "dist_adjust", "table_switch_border"}
 IdemOps == {"potential_shift", "dist_adjust", "table_change_flag", "table_extrapolate", "potential_extrapolate", "merge_tables"}
+PotL(type, lf) == IF lf # "" THEN lf ELSE IF type = "non-bonded" THEN "exponential" ELSE "linear"
+PotR(type, rf) == IF rf # "" THEN rf ELSE PotDefaultR(type)
+PotOK(t, xs, type, lf, rf, A) ==          \* the documented formulas are defined and stay in the range of doubles
+  LET l == PotL(type, lf) r == PotR(type, rf) Ar == IF type = "non-bonded" THEN 1 ELSE A
+  IN /\ l \in {"sasha", "exponential"} => ExtrapolateDefined(t, l, "left", A)
+     /\ r \in {"sasha", "exponential"} => ExtrapolateDefined(t, r, "right", Ar)
+     /\ r = "periodic" => l # "exponential"           \* the right side would end at an irrational value
+     /\ \A p \in PotExtrapolate(t, xs, type, l, r, A, <<10000, 1>>).lg : RLe(RAbs(p[3]), RI(20))
+\* exponential extrapolation is defined (y0 # 0) and stays in the range of doubles: |ln(y/y0)| <= 20 everywhere
+ExpOK(t, xs, A) ==
+  /\ ExtrapolateDefined(t, "exponential", "leftright", A)
+  /\ \A p \in Extrapolate(t, xs, "exponential", "leftright", A, <<2, 1>>, TRUE).lg : RLe(RAbs(p[3]), RI(20))
 Base(op, n, s, sd) == [op |-> op, n |-> n, seed |-> s, x0 |-> Pick(sd, 1, 3), h |-> HOf(sd),
                        g |-> IF op \in UniformOnly THEN UniformG(n) ELSE GOf(sd, n),
                        e4 |-> op \in FourColOps /\ Pick(sd, 14, 3) = 0, ye |-> RN(1 + Pick(sd, 15, 9), 4),
@@ -76,42 +90,51 @@ Case(op, n, s) ==
                   pot |-> Tab(RY(sd, 400, n), [k \in 1..n |-> PickSeq(sd, 300 + k, <<"i", "i", "i", "i", "o", "u">>)]),
                   c |-> PickSeq(sd, 6, CSeq)]
     [] op = "dist_boltzmann_invert" ->
-         LET usemin == Pick(sd, 5, 2) = 1
+         LET btype == Cyc(<<"non-bonded", "dihedral", "", "bond", "angle", "bond", "angle">>, n + s)
+             normed == btype \in {"bond", "angle"}      \* the file holds 2^e * norm(x): norm = x^2 (bond), sin x (angle, 0 < x < pi)
+             usemin == ~normed /\ Pick(sd, 5, 2) = 1
              mk == IF usemin THEN Pick(sd, 6, 3) - 2 ELSE -40
              lo == IF usemin THEN mk ELSE -4           \* defined exponents are lo+1..lo+6
              a == Pick(sd, 7, 3)
              z == Pick(sd, 8, 3)
              nn == n + 7 + a + z
              und(k) == IF usemin /\ Pick(sd, 600 + k, 2) = 1 THEN mk - Pick(sd, 700 + k, 2) ELSE Z
-         IN [b EXCEPT !.n = nn, !.g = GOf(sd, nn)] @@
+         IN [b EXCEPT !.n = nn, !.g = IF btype = "angle" THEN UniformG(nn) ELSE GOf(sd, nn),
+                      !.h = IF btype = "angle" THEN <<1, 8>> ELSE b.h, !.x0 = IF normed THEN b.x0 + 1 ELSE b.x0] @@
             [e |-> [k \in 1..nn |-> IF k <= a \/ k > nn - z THEN und(k)
                                     ELSE IF k <= a + 10 \/ Pick(sd, 800 + k, 4) # 0 THEN lo + 1 + Pick(sd, 100 + k, 6)
                                     ELSE und(k)],
              usemin |-> usemin, mk |-> mk, c |-> PickSeq(sd, 9, CSeq),
-             type |-> PickSeq(sd, 10, <<"non-bonded", "dihedral", "">>)]
+             type |-> btype]
     [] op \in {"table_linearop", "table_linearop_x"} ->
-         b @@ [t |-> RTab(sd, 100, n), a |-> Coef(sd, 5), b |-> Coef(sd, 6), wf |-> PickSeq(sd, 7, <<"", "", "i", "o">>)]
+         LET we == op = "table_linearop" /\ (n + 2 * s) % 4 = 0        \* --with-errors: 4-column input and output
+         IN [b EXCEPT !.e4 = b.e4 \/ we] @@
+            [t |-> Tab(RY(sd, 100, n), FlagFam(sd, 600, n, 2 + Pick(sd, 600, 2))), a |-> Coef(sd, 5), b |-> Coef(sd, 6),
+             wf |-> Cyc(<<"", "i", "o", "u", "">>, n + s), we |-> we]
     [] op \in {"table_combine", "table_combine_sum"} ->
-         LET o == PickSeq(sd, 5, <<"+", "-", "x", "*", "/", "d", "d2", "=">>)
-             var == IF op = "table_combine_sum" THEN Pick(sd, 6, 2) ELSE Pick(sd, 6, 4)   \* 2: --withflag, 3: --no-flags
+         LET o == Cyc(<<"+", "-", "x", "*", "/", "d", "d2", "=">>, n + s)
+             var == IF op = "table_combine_sum" THEN Pick(sd, 6, 2) ELSE (n + 2 * s) % 4   \* 2: --withflag, 3: --no-flags
              t1 == RTab(sd, 100, n)
              y2r == RY(sd, 200, n)
              y2 == [k \in 1..n |-> IF o = "/" /\ y2r[k] = RZero THEN RI(1)
                                    ELSE IF o = "=" /\ Pick(sd, 900 + k, 2) = 0 THEN t1.y[k] ELSE y2r[k]]
          IN b @@ [t1 |-> t1, t2 |-> Tab(y2, IF var = 3 THEN RFlags(sd, 1500, n) ELSE t1.f), cop |-> o,
                   sc |-> PickSeq(sd, 8, <<<<1, 1>>, <<1, 1>>, <<1, 2>>, <<-2, 1>>>>),
-                  wf |-> IF var = 2 THEN PickSeq(sd, 9, <<"i", "o">>) ELSE "", noflags |-> var = 3]
+                  wf |-> IF var = 2 THEN Cyc(<<"i", "o", "u">>, s) ELSE "", noflags |-> var = 3,
+                  err |-> o = "="]           \* --error 0.001 (far below the lattice spacing)
     [] op = "merge_tables" ->
          LET ns == 1 + Pick(sd, 5, n)
          IN b @@ [src |-> RTab(sd, 100, ns), off |-> Pick(sd, 6, n - ns + 1), dst |-> RTab(sd, 200, n),
-                  wf |-> PickSeq(sd, 7, <<"", "", "i", "o">>), noflags |-> Pick(sd, 8, 4) = 0, novalues |-> Pick(sd, 9, 4) = 0]
+                  wf |-> Cyc(<<"", "i", "o", "u", "">>, n + s), noflags |-> (n + 2 * s) % 4 = 0, novalues |-> (n + 2 * s) % 4 = 2]
     [] op = "add_POT" ->
          b @@ [t1 |-> Tab(RY(sd, 100, n), FlagFam(sd, 600, n, 3)), t2 |-> Tab(RY(sd, 200, n), FlagFam(sd, 700, n, 3))]
     [] op = "table_scale" -> b @@ [t |-> RTab(sd, 100, n), p1 |-> Coef(sd, 5), p2 |-> Coef(sd, 6)]
     [] op = "table_integrate" ->
-         LET mode == PickSeq(sd, 6, <<"plain", "plain", "sphere", "S">>)
-         IN [b EXCEPT !.x0 = IF mode = "S" THEN b.x0 + 1 ELSE b.x0, !.g = IF mode = "S" THEN UniformG(n) ELSE b.g] @@
-            [t |-> RTab(sd, 100, n), from |-> PickSeq(sd, 5, <<"left", "right", "">>), mode |-> mode,
+         LET mode == Cyc(<<"plain", "plain", "sphere", "S">>, n + s)
+             we == (n + 2 * s) % 4 = 1
+         IN [b EXCEPT !.x0 = IF mode = "S" THEN b.x0 + 1 ELSE b.x0, !.g = IF mode = "S" THEN UniformG(n) ELSE b.g,
+                      !.e4 = b.e4 \/ we] @@
+            [we |-> we, t |-> RTab(sd, 100, n), from |-> Cyc(<<"left", "right", "">>, n), mode |-> mode,
              kt |-> PickSeq(sd, 7, <<<<1, 1>>, <<5, 2>>, <<3, 4>>>>)]
     [] op = "resample_derivative" -> b @@ [t |-> Tab(RY(sd, 100, n), FlagFam(sd, 600, n, Pick(sd, 5, 3)))]
     [] op = "integrate_derivative" ->
@@ -124,31 +147,61 @@ Case(op, n, s) ==
              pre == Pick(sd, 7, 2) = 0       \* an already shifted potential: the minimum of the 'i' points is exactly 0
              zi == MinY(Tab(y0, f1), TRUE, 1, n)
          IN b @@ [t |-> Tab(IF pre THEN [k \in 1..n |-> RSub(y0[k], zi)] ELSE y0, f1), pre |-> pre,
-                  type |-> PickSeq(sd, 6, <<"non-bonded", "", "bond", "angle", "dihedral", "bonded">>)]
+                  type |-> Cyc(<<"non-bonded", "", "bond", "angle", "dihedral", "bonded">>, n + s)]
     [] op \in {"table_smooth", "table_change_flag", "dist_adjust"} -> b @@ [t |-> RTab(sd, 100, n)]
     [] op = "table_extrapolate" ->
          LET f == FlagFam(sd, 600, n, 1)
              core == n - CoreA(sd, 600, n) - CoreB(sd, 600, n)
              A == Min2(1 + Pick(sd, 5, 3), core - 1)
              t == Tab(RY(sd, 100, n), f)
-             fn0 == PickSeq(sd, 6, <<"constant", "linear", "quadratic", "sasha", "periodic", "">>)
-             fn == IF fn0 = "sasha" /\ ~ExtrapolateDefined(t, "sasha", "leftright", A) THEN "linear" ELSE fn0
+             fn0 == Cyc(<<"constant", "linear", "quadratic", "sasha", "periodic", "", "exponential", "exponential">>, n + s)
+             reg == Cyc(<<"left", "right", "leftright", "">>, n + 3 * s)
+             fn == IF fn0 = "sasha" /\ ~ExtrapolateDefined(t, "sasha", "leftright", A) THEN "linear"
+                   ELSE IF fn0 = "exponential" /\ ~ExpOK(t, XSeq(b.x0, b.h, b.g), A) THEN "linear" ELSE fn0
          IN b @@ [t |-> t, A |-> A, defA |-> (A = 3 /\ Pick(sd, 10, 2) = 0), fn |-> fn,
-                  region |-> PickSeq(sd, 7, <<"left", "right", "leftright", "">>),
+                  region |-> reg,
                   C |-> PickSeq(sd, 8, <<<<10000, 1>>, <<2, 1>>, <<1, 2>>>>), fu |-> Pick(sd, 9, 3) # 0]
     [] op = "potential_extrapolate" ->
          LET f == FlagFam(sd, 600, n, 1)
              core == n - CoreA(sd, 600, n) - CoreB(sd, 600, n)
-         IN b @@ [t |-> Tab(RY(sd, 100, n), f), A |-> Min2(1 + Pick(sd, 5, 3), core - 1),
-                  type |-> PickSeq(sd, 6, <<"non-bonded", "bond", "angle", "dihedral">>),
-                  lf |-> PickSeq(sd, 7, <<"linear", "constant", "quadratic">>),
-                  rf |-> PickSeq(sd, 8, <<"", "", "linear", "constant">>)]
+             t == Tab(RY(sd, 100, n), f)
+             A == Min2(1 + Pick(sd, 5, 3), core - 1)
+             ty == Cyc(<<"non-bonded", "bond", "angle", "dihedral">>, n)
+             lf0 == Cyc(<<"linear", "constant", "quadratic", "exponential", "sasha", "", "">>, n + s)    \* "" = documented default
+             rf0 == Cyc(<<"", "", "linear", "constant", "quadratic", "sasha", "exponential">>, n + 2 * s)
+             ok == PotOK(t, XSeq(b.x0, b.h, b.g), ty, lf0, rf0, A)
+         IN b @@ [t |-> t, A |-> A, type |-> ty, lf |-> IF ok THEN lf0 ELSE "linear", rf |-> IF ok THEN rf0 ELSE "constant",
+                  clean |-> (n + s) % 3 = 0]
     [] op = "table_get_value" ->
          b @@ [t |-> RTab(sd, 100, n), X |-> RMul(RI(2 * b.x0 + Pick(sd, 5, 2 * b.g[n] + 1)), RMul(b.h, <<1, 2>>))]
-    [] op = "table_dummy" -> b @@ [y1 |-> Coef(sd, 5), y2 |-> Coef(sd, 6)]
+    [] op = "table_dummy" -> b @@ [y1 |-> Coef(sd, 5), y2 |-> Coef(sd, 6), clean |-> (n + s) % 3 = 0]
     [] op = "table_average" ->
          LET c == 2 + Pick(sd, 5, 3)
-         IN b @@ [ts |-> [j \in 1..c |-> Tab(RY(sd, 100 * j, n), [k \in 1..n |-> "i"])]]
+         IN b @@ [ts |-> [j \in 1..c |-> Tab(RY(sd, 100 * j, n), [k \in 1..n |-> "i"])], clean |-> (n + s) % 3 = 0]
+    [] op = "table_combine_die" ->        \* --die --op = (csg_call: "table compare"): exit status says whether the tables agree
+         LET t1 == RTab(sd, 100, n)
+             same == (n + s) % 2 = 0
+             kd == 1 + Pick(sd, 6, n)
+         IN b @@ [t1 |-> t1, t2 |-> Tab(IF same THEN t1.y ELSE [t1.y EXCEPT ![kd] = RAdd(t1.y[kd], <<1, 4>>)], t1.f)]
+    [] op = "resample_spline" ->          \* csg_resample of a NON-equidistant table onto the unit lattice, all spline types
+         LET ty == Cyc(<<"cubic", "cubic", "akima", "linear", "">>, n + s)
+             isline == (n + 2 * s) % 3 = 0
+             nn == IF ty = "cubic" /\ ~isline THEN Min2(n + 2, 5) ELSE n + 2
+             pat == (n + 3 * s) % 4     \* 0: alternating 1,3 (0.05/0.15 for h = 1/20)  1: geometric  2: one very short interval  3: 1..3
+             ks == 1 + Pick(sd, 7, nn - 1)
+             gap(k) == CASE pat = 0 -> IF k % 2 = 1 THEN 1 ELSE 3
+                         [] pat = 1 -> IF k <= 5 THEN 2 ^ (k - 1) ELSE 16
+                         [] pat = 2 -> IF k = ks THEN 1 ELSE 8
+                         [] pat = 3 -> 1 + Pick(sd, 1200 + k, 3)
+             RECURSIVE G(_)
+             G(k) == IF k = 1 THEN 0 ELSE G(k - 1) + gap(k - 1)
+             gg == [k \in 1..nn |-> G(k)]
+             hh == PickSeq(sd, 12, <<<<1, 20>>, <<1, 10>>, <<1, 4>>, <<1, 8>>, <<1, 20>>>>)
+             xs == XSeq(b.x0, hh, gg)
+             la == Coef(sd, 8) lb == Coef(sd, 9)
+         IN [b EXCEPT !.n = nn, !.g = gg, !.h = hh] @@
+            [t |-> Tab(IF isline THEN [k \in 1..nn |-> RAdd(RMul(la, xs[k]), lb)] ELSE RY(sd, 100, nn), RFlags(sd, 600, nn)),
+             type |-> ty, isline |-> isline]
     [] op = "table_switch_border" ->
          b @@ [t |-> Tab(RY(sd, 100, n), FlagFam(sd, 600, n, 0)), w |-> 1 + Pick(sd, 5, Min2(3, n - 1))]
     [] op = "average_linearop" ->         \* pipeline: table_average.sh writes x mean error flag, the next tool reads it
@@ -156,7 +209,7 @@ Case(op, n, s) ==
          IN b @@ [ts |-> [j \in 1..c |-> Tab(RY(sd, 100 * j, n), [k \in 1..n |-> "i"])], a |-> Coef(sd, 6), b |-> Coef(sd, 7)]
     [] op = "resample_same" ->           \* >= 40 points, DECIMAL step, flag transitions i->o, i->u, u->i at late points
          LET nn == 40 + 5 * n + Pick(sd, 5, 21)
-             p == 17 + Pick(sd, 6, nn - 25)
+             p == 18 + Pick(sd, 6, nn - 26)
              r == 1 + Pick(sd, 7, 3)
              q == 1 + Pick(sd, 8, 4)
              pat == Pick(sd, 9, 3)
@@ -168,7 +221,7 @@ Case(op, n, s) ==
                                         ELSE CASE pat = 0 -> "o"
                                                [] pat = 1 -> IF k <= p + r THEN "u" ELSE "i"
                                                [] pat = 2 -> IF k <= p + r THEN "u" ELSE IF k <= p + r + q THEN "i" ELSE "o"]),
-             type |-> PickSeq(sd, 13, <<"linear", "linear", "akima", "cubic", "">>)]
+             type |-> Cyc(<<"linear", "linear", "akima", "cubic", "">>, n + s)]
 
 \* ---- expected output of a case -----------------------------------------------------------------
 FnOf(c) == IF c.fn = "" THEN "quadratic" ELSE c.fn
@@ -196,11 +249,14 @@ Expect(c) ==
     [] c.op = "dist_adjust" -> DistAdjust(c.t)
     [] c.op = "table_extrapolate" -> Extrapolate(c.t, XS(c), FnOf(c), RegOf(c), c.A, c.C, c.fu)
     [] c.op = "potential_extrapolate" ->
-         PotExtrapolate(c.t, XS(c), c.type, c.lf, IF c.rf = "" THEN PotDefaultR(c.type) ELSE c.rf, c.A, <<10000, 1>>)
+         PotExtrapolate(c.t, XS(c), c.type, PotL(c.type, c.lf), PotR(c.type, c.rf), c.A, <<10000, 1>>)
     [] c.op = "table_get_value" -> GetValue(c.t, XS(c), c.X)
     [] c.op = "table_dummy" -> Dummy(c.n, c.y1, c.y2)
     [] c.op = "table_average" -> Average(c.ts)
     [] c.op = "table_switch_border" -> SwitchBorder(c.t, c.n - c.w, c.w)
+    [] c.op = "table_combine_die" -> [kind |-> "exit", ok |-> c.t1.y = c.t2.y]
+    [] c.op = "resample_spline" ->
+         ResampleSpline(c.t, XS(c), c.g, c.x0, c.h, IF c.type = "" THEN "akima" ELSE c.type, c.isline)
     [] c.op = "average_linearop" ->       \* the averaged points are valid ('i'): --withflag i operates on all of them
          LinearOp(Tab(Average(c.ts).y, [k \in 1..c.n |-> "i"]), c.a, c.b, "i")
 
@@ -293,9 +349,13 @@ AlgExt(c) ==
      /\ ~c.fu => o.f = c.t.f
      /\ reg = "left" => \A k \in la..c.n : o.y[k] = c.t.y[k]
      /\ reg = "right" => \A k \in 1..fi : o.y[k] = c.t.y[k]
-     /\ (small /\ reg # "right") =>                                           \* expanded form = help text literally
+     /\ (small /\ reg # "right" /\ fn # "exponential") =>                   \* expanded form = help text literally
            \A k \in 1..(fi - 1) : o.y[k] = ExFDoc(fn, c.C, x(fi), c.t.y[fi], ml, x(k))
      /\ ExF(fn, c.C, c.t.y[fi], ml, RZero) = c.t.y[fi]                        \* continuous at the anchor
+     /\ fn = "exponential" => /\ \A p \in o.lg : p[1] \in o.free /\ (p[1] < fi \/ p[1] > la) /\ p[2] # RZero
+                              /\ \A p \in o.lg : RLe(RAbs(p[3]), RI(20))
+                              /\ Cardinality(o.lg) = (IF reg # "right" THEN fi - 1 ELSE 0) + (IF reg # "left" THEN c.n - la ELSE 0)
+     /\ fn # "exponential" => o.lg = {} /\ o.free = {}
      /\ (fn = "periodic" /\ reg # "left" /\ la < c.n) => o.y[c.n] = o.y[1]    \* ends at the first point of the left side
      /\ fn = "constant" => \A k \in 1..c.n : (k < fi /\ reg # "right" => o.y[k] = c.t.y[fi])
                                           /\ (k > la /\ reg # "left" => o.y[k] = c.t.y[la])
@@ -327,6 +387,23 @@ AlgMisc(c) ==
             /\ \A k \in 1..c.n : RAdd(c.t.y[1], CumSum(o.y, unit, c.g[k])) = c.t.y[k]
     [] c.op = "integrate_derivative" ->
          DiffY(IntegrateY(c.t.y, XS(c), c.from), XS(c)) = MidAvg(c.t.y)
+    [] c.op = "resample_spline" ->
+         LET ty == IF c.type = "" THEN "akima" ELSE c.type
+             o == Expect(c)
+             xs == [k \in 1..c.n |-> RI(c.x0 + c.g[k])]          \* in units of h
+             G == c.g[c.n]
+             X(j) == RMul(RI(c.x0 + j), c.h)
+             M == NatSplineM(c.t.y, xs)
+         IN /\ \A k \in 1..c.n : o.y[c.g[k] + 1] = c.t.y[k] /\ o.f[c.g[k] + 1] = c.t.f[k] /\ o.d.f[c.g[k] + 1] = c.t.f[k]  \* knots
+            /\ \A k \in 1..c.n : c.g[k] + 1 \notin o.free
+            /\ c.isline => \A p \in 1..(G + 1) :                                  \* a straight line is reproduced by every type
+                  /\ RSub(o.y[p], o.y[1]) = RMul(o.d.y[1], RSub(X(p - 1), X(0))) /\ o.d.y[p] = o.d.y[1]
+                  /\ o.free = {} /\ o.d.free = {} /\ o.d.alt = {}
+            /\ (ty = "cubic" /\ ~c.isline) =>                         \* the natural cubic spline: C1 and C2 at the inner knots,
+                  /\ M[1] = RZero /\ M[c.n] = RZero                               \* second derivative 0 at both ends
+                  /\ \A k \in 2..(c.n - 1) :
+                        /\ SplDer(c.t.y, xs, M, k - 1, xs[k]) = SplDer(c.t.y, xs, M, k, xs[k])
+                        /\ SplVal(c.t.y, xs, M, k - 1, xs[k]) = c.t.y[k] /\ SplVal(c.t.y, xs, M, k, xs[k]) = c.t.y[k]
     [] c.op = "resample_same" ->
          LET o == ResampleSame(c.t, XS(c))
          IN /\ o.y = c.t.y /\ o.f = c.t.f /\ o.d.f = c.t.f
@@ -369,7 +446,8 @@ Algebra ==
 SameGrid ==
   ph = 1 =>
     LET o == Expect(cs)
-        m == IF cs.op \in {"resample_derivative", "integrate_derivative"} THEN cs.g[cs.n] ELSE cs.n
+        m == IF cs.op \in {"resample_derivative", "integrate_derivative"} THEN cs.g[cs.n]
+             ELSE IF cs.op = "resample_spline" THEN cs.g[cs.n] + 1 ELSE cs.n
     IN CASE o.kind = "table" -> Len(o.y) = m /\ Len(o.f) = m /\ \A p \in o.alt : p[1] \in 1..m
          [] o.kind = "range" -> Len(o.lo) = m /\ Len(o.hi) = m /\ Len(o.f) = m
          [] o.kind = "squares" -> Len(o.y2) = m
